@@ -32,12 +32,17 @@ CLAIMS = {
                 note=TOK_NOTE + " The golden table is an audited snapshot, not an independent transcription.",
                 tech="source-to-Coq translation + reflective Coq checks + golden-table differential"),
     "C03": dict(cat="proof", ref="DESIGN.md section 5 C03",
-                text="PARTIAL proof. Props/C03.v proves on the regenerated table that no command precedes a read in any state (a step "
-                     "that suspends has had no effect but its read: the premise of suspend/resume). Whole-run chunk independence is "
-                     "established by metamorphic runs on the implementation (whole vs one-char vs every two-way split vs random "
-                     "chunkings: tokens, parse errors, line numbers, final tree; script-pause injection vs splicing), with the "
-                     "interpreter/implementation correspondence as the tie.",
-                note=TOK_NOTE, tech="reflective Coq check on regenerated table + chunking/injection metamorphic oracle"),
+                text="PARTIAL proof, with the core theorem closed. Props/C03.v proves (generic Coq theorem TokIR/Chunk.v, instantiated on the "
+                     "table regenerated from html5ever/src/tokenizer/mod.rs on every run) that for the tokenizer's reference semantics "
+                     "(TokIR interpreter over a flat queue, exact_errors = true) any two chunkings of the same input - with script "
+                     "pauses injecting text and EncodingIndicator suspensions at the same logical positions - reach the SAME machine: "
+                     "token stream with parse errors and line numbers, configuration, unread input (suspend/resume lemmas for every "
+                     "read kind, character-reference sub-tokenizer included); the run relation is proved to be the fuelled executable "
+                     "loop. Not proved, tied by differential runs in the check: the chunked-queue interpreter with bulk reads (any "
+                     "exact_errors) agrees with the reference semantics up to merging of adjacent character tokens; the Rust "
+                     "tokenizer agrees with that interpreter; tree-builder half. Oracle: metamorphic chunking / script-injection "
+                     "runs on the implementation (tokens, errors, lines, final tree).",
+                note=TOK_NOTE, tech="generic Coq suspend/resume proof over regenerated TokIR table + reference/chunked/impl differential + chunking oracle"),
     "C04": dict(cat="proof", ref="DESIGN.md section 5 C04",
                 text="PARTIAL proof (tokenizers). Props/C04.v proves on the regenerated html and xml tables: EOF handling reads no "
                      "input and reaches an EOF-emitting arm within |states| steps from every state (acyclic EOF graph), "
@@ -58,11 +63,14 @@ CLAIMS = {
                      "interpreter's ghost counter (validated by token-stream correspondence).",
                 note=TOK_NOTE, tech="reflective Coq checks (raw_discard_safe, line-break sets) + per-token line oracle"),
     "C15": dict(cat="proof", ref="DESIGN.md section 5 C15",
-                text="PARTIAL proof. Props/C15.v proves on the regenerated xml table that bulk sets contain CR and NUL and every "
-                     "singled-out character, and that reads come first in every state. Chunking / exact_errors / discard_bom "
-                     "independence and the normalisation law tree(x) = tree(normalise(x)) are checked metamorphically on the "
-                     "implementation (tokens and trees).",
-                note=TOK_NOTE, tech="reflective Coq checks on regenerated xml table + chunking/option/normalisation oracles"),
+                text="PARTIAL proof. Props/C15.v proves on the regenerated xml table: bulk sets contain CR and NUL and every "
+                     "singled-out character; reads come first; and chunk independence of the tokenizer's reference semantics (flat "
+                     "queue, exact_errors = true) by the same generic theorem as C03 - _partial because the run relation carries the "
+                     "side condition that the reconsume flag is clear when a look-ahead state is entered (true of the xml table by "
+                     "inspection, not proved as an invariant). Chunking / exact_errors / discard_bom independence of the real "
+                     "parser and the normalisation law tree(x) = tree(normalise(x)) are checked metamorphically on the "
+                     "implementation (tokens and trees); reference vs chunked interpreter vs Rust code tied differentially.",
+                note=TOK_NOTE, tech="generic Coq suspend/resume proof + reflective checks on regenerated xml table + chunking/option/normalisation oracles"),
 }
 
 PENDING_REASON = ("not yet registered in this round: the check is being built (see DESIGN.md section 9 staging); the technique applies, "
